@@ -53,7 +53,9 @@ fn roots(api: &Api, kind: Kind, tier: Tier, seed: u64) -> Result<Vec<Root>, Stri
             for (n, s) in g.special_scalars() {
                 let mut b = base.clone();
                 b[f.range()].copy_from_slice(&s);
-                out.push(Root { name: format!("special/{}/{}", f.name, n), bytes: b, honest: false });
+                // a server setup is seed || private key || fake private key with no redundancy: every valid private key
+                // gives a setup the library itself can produce (ServerSetup::new_with_key_pair), so it must be accepted
+                out.push(Root { name: format!("special/{}/{}", f.name, n), bytes: b, honest: kind == Kind::Setup });
             }
         }
     }
@@ -90,7 +92,8 @@ fn explore(api: &Api, kind: Kind, tier: Tier, seed: u64, cx: &mut Cx) {
             }
             Err(e) => {
                 if root.honest {
-                    cx.violate_case(&format!("{}/honest-rejected", kind.name()), format!("honest {} is rejected by its decoder: {:?}", kind.name(), e), json!({"decoder": kind.name(), "root": root.name, "bytes": hex::encode(b)}));
+                    cx.outcome("VALID-ROOT-REJECTED");
+                    cx.violate_case(&format!("{}/honest-rejected", kind.name()), format!("valid {} ({}) is rejected by its decoder: {:?}", kind.name(), root.name, e), json!({"decoder": kind.name(), "root": root.name, "bytes": hex::encode(b)}));
                 } else {
                     cx.outcome("special-root-rejected");
                 }
